@@ -1,7 +1,7 @@
 /-
   Proofs.RawString — the raw-string scanner inverts the raw-string spelling for
-  every well-formed UTF-8 string the syntax can spell (no backslash directly
-  before a quote, none at the end), multi-byte runes included.
+  every well-formed UTF-8 string the syntax can spell (every string that does
+  not end with a backslash), multi-byte runes included.
 -/
 import Proofs.LexerRoundTrip
 import Proofs.JsonString
@@ -98,6 +98,13 @@ theorem RawOK_drop : ∀ (n : Nat) (s : Bytes), RawOK s → RawOK (s.drop n)
     simp only [List.drop_succ_cons]
     exact RawOK_drop n cs (RawOK_tail c cs h)
 
+theorem RawEndOK_drop : ∀ (n : Nat) (s : Bytes), RawEndOK s → RawEndOK (s.drop n)
+  | 0, s, h => by simpa using h
+  | n + 1, [], _ => by simp [RawEndOK]
+  | n + 1, c :: cs, h => by
+    simp only [List.drop_succ_cons]
+    exact RawEndOK_drop n cs (RawEndOK_tail c cs h)
+
 /-- one step of the raw-string loop on a well-formed multi-byte rune -/
 theorem rawBody_multi (fuel : Nat) (c : UInt8) (cs Y : Bytes) (hw : 1 < (decodeRune (c :: cs)).2) (hY : Y ≠ []) :
     rawBody (fuel + 1) ((c :: cs).take (decodeRune (c :: cs)).2 ++ Y) =
@@ -126,9 +133,10 @@ theorem rawBody_multi (fuel : Nat) (c : UInt8) (cs Y : Bytes) (hw : 1 < (decodeR
     | none => rfl
     | some x => obtain ⟨a, b⟩ := x; rfl
 
-/-- **Raw strings, for every well-formed UTF-8 string the syntax can spell**: scanning
+/-- **Raw strings, for every well-formed UTF-8 string that does not end with a backslash**
+    (a backslash directly before a quote included): scanning
     `rawSpell s ++ "'" ++ rest` yields exactly `s` and leaves `rest`. -/
-theorem rawBody_rawSpell_utf8 {s : Bytes} (hv : ValidUtf8 s) : ∀ (rest : Bytes) (fuel : Nat), RawOK s →
+theorem rawBody_rawSpell_utf8 {s : Bytes} (hv : ValidUtf8 s) : ∀ (rest : Bytes) (fuel : Nat), RawEndOK s →
     (rawSpell s).length < fuel → rawBody fuel (rawSpell s ++ 0x27 :: rest) = some (s, rest) := by
   induction hv with
   | nil =>
@@ -138,7 +146,7 @@ theorem rawBody_rawSpell_utf8 {s : Bytes} (hv : ValidUtf8 s) : ∀ (rest : Bytes
     | succ f => rw [show rawSpell [] ++ 0x27 :: rest = 0x27 :: rest from rfl, rawBody_step f 0x27 rest (by decide)]; simp
   | ascii c cs hc hvcs ih =>
     intro rest fuel hok hf
-    have hokcs := RawOK_tail c cs hok
+    have hokcs := RawEndOK_tail c cs hok
     cases fuel with
     | zero => simp at hf
     | succ f =>
@@ -167,13 +175,11 @@ theorem rawBody_rawSpell_utf8 {s : Bytes} (hv : ValidUtf8 s) : ∀ (rest : Bytes
             cases cs with
             | nil => exact hok rfl
             | cons e es =>
-              have hne' : e ≠ 0x27 := hok.1 rfl
-              simp only [rawSpell, hne', if_false, List.cons_append, List.cons.injEq] at hnext
-              obtain ⟨rfl, _⟩ := hnext
-              by_cases he : e < 0x80
-              · rw [decodeRune_ascii e _ he] at hd
-                exact hne' ((toNat_eq_iff e 0x27 (by decide)).mp hd)
-              · have := decode_ge80 e ds he; omega
+              have hne' : d ≠ 0x27 := rawSpell_head_ne e es _ d ds hnext
+              by_cases he : d < 0x80
+              · rw [decodeRune_ascii d _ he] at hd
+                exact hne' ((toNat_eq_iff d 0x27 (by decide)).mp hd)
+              · have := decode_ge80 d ds he; omega
           rw [if_neg hcond, ← hnext, ih']
           rfl
   | multi c cs hw hvd ih =>
@@ -193,7 +199,103 @@ theorem rawBody_rawSpell_utf8 {s : Bytes} (hv : ValidUtf8 s) : ∀ (rest : Bytes
         rw [List.append_assoc, rawBody_multi f c cs _ hw (by simp)]
         have hlen : ((c :: cs).take (decodeRune (c :: cs)).2).length ≥ 1 := by
           rw [List.length_take_of_le (width_le c cs)]; omega
-        rw [ih rest f (RawOK_drop _ _ hok) (by simp only [List.length_append] at hf; omega)]
+        rw [ih rest f (RawEndOK_drop _ _ hok) (by simp only [List.length_append] at hf; omega)]
         simp only [Option.map, List.take_append_drop]
+
+/-! ### a trailing backslash cannot be written -/
+
+theorem rawSpell_append : ∀ (a b : Bytes), rawSpell (a ++ b) = rawSpell a ++ rawSpell b
+  | [], b => rfl
+  | c :: cs, b => by
+    simp only [List.cons_append, rawSpell, rawSpell_append cs b]
+    split <;> rfl
+
+theorem rawBody_nil (fuel : Nat) : rawBody fuel [] = none := by
+  cases fuel <;> rfl
+
+/-- non-ASCII bytes at the front of a spelling (followed by a backslash) are bytes of the string itself -/
+theorem rawSpell_drop_nonascii : ∀ (n : Nat) (cs Z : Bytes),
+    (∀ x ∈ (rawSpell cs ++ 0x5C :: Z).take n, ¬ x < 0x80) →
+    (rawSpell cs ++ 0x5C :: Z).drop n = rawSpell (cs.drop n) ++ 0x5C :: Z
+  | 0, cs, Z, _ => by simp
+  | n + 1, [], Z, h => absurd (by decide : (0x5C : UInt8) < 0x80) (h 0x5C (by simp [rawSpell]))
+  | n + 1, c :: cs, Z, h => by
+    by_cases hq : c = 0x27
+    · subst hq; exact absurd (by decide : (0x5C : UInt8) < 0x80) (h 0x5C (by simp [rawSpell]))
+    · rw [rawSpell_cons_ne c cs hq] at h ⊢
+      simp only [List.cons_append, List.take_succ_cons, List.drop_succ_cons] at h ⊢
+      exact rawSpell_drop_nonascii n cs Z (fun x hx => h x (by simp [hx]))
+
+/-- **A string that ends with a backslash has no raw-string spelling**: in
+    `'` + spelling of `s` + `\'` the last backslash escapes the quote meant to
+    close the literal, and the scanner reaches the end of the input — for every
+    byte string `s` (well-formed UTF-8 or not) and whatever the fuel. -/
+theorem rawBody_trailing_backslash : ∀ (fuel : Nat) (s : Bytes),
+    rawBody fuel (rawSpell s ++ [0x5C, 0x27]) = none
+  | 0, _ => rfl
+  | f + 1, [] => by
+    rw [show rawSpell [] ++ [0x5C, 0x27] = 0x5C :: [0x27] from rfl, rawBody_step f 0x5C _ (by decide)]
+    simp [decodeRune_ascii, rawBody_nil]
+  | f + 1, c :: cs => by
+    have ih := rawBody_trailing_backslash f
+    by_cases hc : c < 0x80
+    · by_cases hq : c = 0x27
+      · subst hq
+        simp only [rawSpell, if_true, List.cons_append]
+        rw [rawBody_step f 0x5C _ (by decide)]
+        simp only [show ¬ ((0x5C : UInt8) = 0x27) by decide, if_false]
+        rw [decodeRune_ascii 0x27 _ (by decide)]
+        simp only [show (0x27 : UInt8).toNat = 0x27 from rfl, and_self, if_true]
+        rw [ih cs]; rfl
+      · simp only [rawSpell, hq, if_false, List.cons_append]
+        rw [rawBody_step f c _ hc]
+        simp only [hq, if_false]
+        cases hnext : rawSpell cs ++ [0x5C, 0x27] with
+        | nil => simp at hnext
+        | cons d ds =>
+          simp only []
+          have hcond : ¬ (c = 0x5C ∧ (decodeRune (d :: ds)).1 = 0x27) := by
+            rintro ⟨_, hd⟩
+            have hne' : d ≠ 0x27 := by
+              cases cs with
+              | nil => simp [rawSpell] at hnext; rw [← hnext.1]; decide
+              | cons e es => exact rawSpell_head_ne e es _ d ds hnext
+            by_cases he : d < 0x80
+            · rw [decodeRune_ascii d _ he] at hd
+              exact hne' ((toNat_eq_iff d 0x27 (by decide)).mp hd)
+            · have := decode_ge80 d ds he; omega
+          rw [if_neg hcond, ← hnext, ih cs]
+          rfl
+    · have hcq := (nonascii_ne_quote hc).1
+      rw [rawSpell_cons_ne c cs hcq, List.cons_append]
+      rcases decode_cases c (rawSpell cs ++ [0x5C, 0x27]) hc with herr | ⟨hw, htail⟩
+      · -- an ill-formed byte: the scanner keeps it and moves on by one byte
+        have h27 : ¬ (runeError = 0x27) := by decide
+        have h5c : ¬ (runeError = 0x5C) := by decide
+        simp only [rawBody, herr, h27, h5c, if_false, List.drop_one, List.tail_cons]
+        cases hnext : rawSpell cs ++ [0x5C, 0x27] with
+        | nil => simp at hnext
+        | cons d ds =>
+          simp only [decide_false, Bool.false_and, Bool.false_eq_true, if_false]
+          rw [← hnext, ih cs]; rfl
+      · obtain ⟨n, hn⟩ : ∃ n, (decodeRune (c :: (rawSpell cs ++ [0x5C, 0x27]))).2 = n + 1 :=
+          ⟨(decodeRune (c :: (rawSpell cs ++ [0x5C, 0x27]))).2 - 1, by omega⟩
+        have hdrop : (c :: (rawSpell cs ++ [0x5C, 0x27])).drop (decodeRune (c :: (rawSpell cs ++ [0x5C, 0x27]))).2
+            = rawSpell (cs.drop n) ++ [0x5C, 0x27] := by
+          rw [hn, List.drop_succ_cons]
+          exact rawSpell_drop_nonascii n cs [0x27] (by rw [hn] at htail; simpa using htail)
+        have := rawBody_multi f c (rawSpell cs ++ [0x5C, 0x27])
+          ((c :: (rawSpell cs ++ [0x5C, 0x27])).drop (decodeRune (c :: (rawSpell cs ++ [0x5C, 0x27]))).2) hw
+          (by rw [hdrop]; simp)
+        rw [List.take_append_drop] at this
+        rw [this, hdrop, ih (cs.drop n)]
+        rfl
+
+/-- … stated on the string: the spelling of `s ++ "\"` followed by the closing quote is an
+    unterminated literal. -/
+theorem rawBody_rawSpell_trailing_backslash (fuel : Nat) (s : Bytes) :
+    rawBody fuel (rawSpell (s ++ [0x5C]) ++ [0x27]) = none := by
+  rw [rawSpell_append, List.append_assoc]
+  exact rawBody_trailing_backslash fuel s
 
 end Jmes.Lexer
